@@ -539,6 +539,8 @@ def handle (line : String) : String × String :=
     | _, _ => ("bad-request", "-")
   | ["fstfile", design, unit, _] =>
     (Wellen.FstFile.model design unit, Wellen.GhwSpec.specFst design unit)
+  | ["fstfile", design, unit, _, dups] =>
+    (Wellen.FstFile.model design unit dups, Wellen.GhwSpec.specFst design unit dups)
   | "pairhex" :: design :: files =>
     let o := Wellen.GhwSpec.specObserve design
     let r := "#".intercalate (files.map fun _ => o)
